@@ -1,39 +1,66 @@
 /-
-C02 — No file content can crash or hang a built-in extractor (the part Lean can carry for the modelled parsers).
-The byte-level models of C03 are total functions by construction: every loop is structural recursion or has an
-explicit iteration bound (`lines + 2`), every slice is guarded. These theorems are the formal statement
-"∀ bytes, the model never reaches a crash outcome"; they say something about the Go code only through the
-correspondence runs of C03/C02 on arbitrary and mutated bytes (model and implementation agree on
-error-vs-value there). For package-lock.json the statement is about the record loop over ANY decoded document
-and does real work: the alias branch `Version[4:i]` is where the code panicked before fix 7578723d.
-Engine-level confinement (C02_confined, C02_no_recover) lives with the walk-engine model.
+C02 — No file content can crash or hang a built-in extractor: the part Lean carries for the MODELLED parsers.
+
+Coverage, stated up front: 7 of the 58 built-in extractors have a model here — five byte-level parsers (apk,
+gradle.lockfile, Gemfile.lock, dpkg status, requirements.txt) and two record loops that start at the decoded document
+(package-lock.json, Pipfile.lock; the "document is `null`" crash class of fix 0ef40a9a is not expressible there).
+The other 51 are only searched by the fuzz loop of checks/c02.py.
+
+What "never panics" means here. Go run-time panics the modelled code can raise are indexing and slicing out of range.
+The models are "Go-shaped": every `x[i]` / `x[lo:hi]` of the Go source is `goIndex` / `goSliceI` / `goSlice`, whose `none`
+is propagated to `Outcome.panic`. A `_total` theorem therefore says: on EVERY input, every index and slice the code
+performs is in range (proved through the `…Go_eq` lemmas of Proofs/Parsers/GoShape.lean, which show the Go-shaped function
+equals an index-free reformulation). The sites:
+  gradle        parts[0], parts[1], parts[2] behind `len(parts) < 3`; `strings.SplitN(version, "=", 2)[0]`
+  Gemfile.lock  m[1], m[2] behind `len(m) < 3`
+  dpkg          parts[2] behind `len(parts) != 3`; `source[:idx]`, `source[idx+2 : len(source)-1]` behind " (" found and ")" suffix
+  requirements  `l[:len(l)-1]` behind HasSuffix "\\"; `SplitN(s, ";", 2)[0]`; t[0], t[1] behind `len(t) != 2`
+  package-lock  `Version[4:i]`, `Version[i+1:]`, `Version[4:]` (the pre-7578723d crash); Pipfile: `Version[2:]`
+  apk           NONE: `parseSingleApkRecord` / `extractFromInput` index nothing, slice nothing, write to no nil map and
+                dereference no pointer that can be nil. `C02_apk_total` is therefore true by construction of the model
+                (it is kept for completeness and NOT listed as a proof obligation; the apk tie is the stream).
+Nil dereferences, nil-map writes, stack exhaustion and panics inside library calls (regexp, textproto, bufio) are not
+modelled anywhere: for those the check only searches.
+
+"Bounded time": the three record loops that carry an iteration bound (apk, dpkg, requirements) are proved FUEL-ADEQUATE on
+arbitrary input — the bound (`lines + 2`) never ends the loop, every iteration consumes a line or stops — so the models
+terminate in a number of iterations linear in the number of lines; all other model functions are structural recursion.
+That is a theorem about the models; for the Go code it is tied only by the streams (a Go-side hang shows as `pk=hang`
+against a terminating model). Memory is not modelled.
+Engine-level confinement lives in Properties/C02Engine.lean.
 -/
-import Scalibr.Model.Parsers.Apk
-import Scalibr.Model.Parsers.Gradle
-import Scalibr.Model.Parsers.Gemfile
-import Scalibr.Model.Parsers.Dpkg
-import Scalibr.Model.Parsers.Requirements
+import Scalibr.Proofs.Parsers.GoShape
+import Scalibr.Proofs.Parsers.Fuel
 import Scalibr.Proofs.Lockfiles
 namespace Scalibr.Parsers
 
+/-- VACUOUS BY CONSTRUCTION (see header): the apk parser has no indexing / slicing site, so the model has no panic
+outcome to reach. Not listed in THEOREMS. -/
 theorem C02_apk_total (bytes : List Char) : Apk.parse bytes ≠ .panic := by
   unfold Apk.parse; split; split <;> simp
 
+/-- gradle.lockfile: `parts[0..2]` and `SplitN(version, "=", 2)[0]` are in range on every input. -/
 theorem C02_gradle_total (bytes : List Char) : Gradle.parse bytes ≠ .panic := by
-  unfold Gradle.parse; split; simp only []; split <;> simp
+  rw [Gradle.parse_eq]; split <;> simp
 
+/-- Gemfile.lock: `m[1]`, `m[2]` are in range on every input. -/
 theorem C02_gemfile_total (bytes : List Char) : Gemfile.parse bytes ≠ .panic := by
-  unfold Gemfile.parse; split; split <;> simp
+  rw [Gemfile.parse_eq]; split <;> simp
 
+/-- dpkg status: `parts[2]` and both slices of `parseSourceNameVersion` are in range on every input. -/
 theorem C02_dpkg_total (bytes : List Char) : Dpkg.parse bytes ≠ .panic := by
-  unfold Dpkg.parse; simp only []; split <;> simp
+  rw [Dpkg.parse_eq]; split <;> simp
 
+/-- requirements.txt: `l[:len(l)-1]`, `SplitN(…)[0]`, `t[0]`, `t[1]` are in range on every input. -/
 theorem C02_requirements_total (bytes : List Char) : Requirements.parse bytes ≠ .panic := by
-  unfold Requirements.parse; split; simp only []; split <;> simp
+  rw [Requirements.parse_eq]; split <;> simp
 
-/-- every iteration bound used by the models is generous: the apk and dpkg record loops are given `lines + 2`
-iterations, and each iteration consumes at least one line or ends the loop (stated here for the scanner: the
-number of lines never exceeds the number of bytes + 1, so the bound is finite and computable up front) -/
+/-- the sites are real: the same primitives DO fail when a guard is missing (an index behind no length check) -/
+theorem C02_index_can_fail : goIndex (splitN ':' 3 "a:b".toList) 2 = none ∧ goSliceI "x".toList 0 (-1) = none ∧
+    goSliceI [] 0 (([] : List Char).length - 1) = none := by decide
+
+/-- the scanner hands the record loops at most `bytes + 1` lines (so `lines + 2` is a bound computable from the input
+size). This lemma is ONLY that count; termination of the loops within the bound is the three `_fuel_adequate` theorems. -/
 theorem C02_scan_lines_bounded (bytes : List Char) : (scan bytes).1.length ≤ bytes.length + 1 := by
   unfold scan
   simp only [List.length_map]
@@ -54,11 +81,27 @@ theorem C02_scan_lines_bounded (bytes : List Char) : (scan bytes).1.length ≤ b
     | cons x xs ih => rw [List.takeWhile_cons]; split <;> simp <;> omega
   exact Nat.le_trans (htw _ _) (hch bytes [])
 
+/-- apk: the iteration bound `lines + 2` never ends the record loop, on ANY lines (every iteration consumes a line or
+stops): the result is the same for every larger bound. -/
+theorem C02_apk_fuel_adequate (tl : Bool) (ls : List Line) (acc : List (List Char × List Char)) (f : Nat) (h : ls.length + 2 ≤ f) :
+    Apk.extract tl f ls acc = Apk.extract tl (ls.length + 2) ls acc :=
+  Apk.extract_fuel tl ls.length ls acc f (ls.length + 2) (Nat.le_refl _) (by omega) (by omega)
+
+/-- dpkg: the same for the stanza loop (each `ReadMIMEHeader` consumes a line or hits EOF) -/
+theorem C02_dpkg_fuel_adequate (ls : List Line) (acc : List (List Char × List Char)) (f : Nat) (h : ls.length + 2 ≤ f) :
+    Dpkg.loop f ls acc = Dpkg.loop (ls.length + 2) ls acc :=
+  Dpkg.loop_fuel ls.length ls acc f (ls.length + 2) (Nat.le_refl _) (by omega) (by omega)
+
+/-- requirements.txt: the same for the `for s.Scan()` loop with its continuation-line reader -/
+theorem C02_requirements_fuel_adequate (ls : List Line) (acc : List (List Char × List Char)) (f : Nat) (h : ls.length + 1 ≤ f) :
+    Requirements.loop f ls acc = Requirements.loop (ls.length + 1) ls acc :=
+  Requirements.loop_fuel ls.length ls acc f (ls.length + 1) (Nat.le_refl _) (by omega) (by omega)
+
 end Scalibr.Parsers
 
 namespace Scalibr.Lockfiles
 /-- the record loop of package-lock.json never panics, for ANY decoded document (alias without `@version`,
-alias `npm:@scope/x`, `npm:` alone, …) -/
+alias `npm:@scope/x`, `npm:` alone, …): `Version[4:i]`, `Version[i+1:]`, `Version[4:]` are in range. -/
 theorem C02_packagelock_total (d : PackageLock.Doc) : PackageLock.extract d ≠ .panic := by
   unfold PackageLock.extract
   cases d.packages with
@@ -73,7 +116,9 @@ theorem C02_pipfile_total (d : Pipfile.Doc) : Pipfile.extract d ≠ .panic := by
   rw [Pipfile.addPkgs_eq]; simp only []
   rw [Pipfile.addPkgs_eq]; simp
 
-/-- the witness of fix 7578723d, on the model: `"npm:foo"` is an alias without version, not a crash -/
-example : PackageLock.depEntry "x".toList "npm:foo".toList [] = some ("foo@npm:foo".toList, ⟨"foo".toList, [], []⟩) := by decide
+/-- the pre-fix code of 7578723d on the model: WITHOUT the `i > 4` guard the slice `Version[4:i]` fails for `"npm:foo"`
+(`LastIndex = none`, i.e. -1) — the crash the fix removed; with the guard (`aliasSplit`) it is an alias without version. -/
+theorem C02_packagelock_prefix_panics : Scalibr.Parsers.goSliceI "npm:foo".toList 4 (-1) = none ∧
+    PackageLock.depEntry "x".toList "npm:foo".toList [] = some ("foo@npm:foo".toList, ⟨"foo".toList, [], []⟩) := by decide
 example : PackageLock.depEntry "x".toList "npm:".toList [] = some ("@npm:".toList, ⟨[], [], []⟩) := by decide
 end Scalibr.Lockfiles
